@@ -51,6 +51,9 @@ CHECKS = {
     "C12": ("exploration", "runtime monitoring: offline obligation/justification checker over send timestamps in virtual time (every owed record served in its window; every multicast answer justified by a window), sightings read from the real cache around each arrival",
             "Schedules of 1..6 QM queries, probes and truncated trains with gaps on the stated grid under the library's own seeded jitter and 0/1/50 ms loop-back delay; obligations by class (immediate / aggregated 20..500 ms / protected >= sighting+1 s and <= +1.2 s / TC hold 400..500 ms) are checked both ways, plus no duplicate record in one datagram.",
             "TTL >= 10 s; trains whose next packet lands inside the 400..500 ms timer window are not judged (counted); 1 ms slack.", "2/C12"),
+    "C13": ("exploration", "runtime monitoring: offline checker of every query on the simulated wire against a cache model (known answers = non-stale records with remaining TTL, TC split) and a duplicate-question-suppression model evaluated at the observed send instants",
+            "Browser queries with 0..300 cached PTRs whose half-life instants straddle the start-up query instants; pairs of askers (two browsers, browser + external QM/QU query with/without authority, subset/equal/superset known answers) at gaps around 0/998/999/1000/1001 ms; service-info lookups with partial caches, forced question types and timeouts 200 ms..10 s.",
+            "Cases where two askers act in the same virtual instant or a history entry is exactly 999 ms old are not judged (counted as observations).", "2/C13"),
 }
 
 NOT_YET = {}
